@@ -1,5 +1,6 @@
 """C11 - DAQmx raw data is decoded at the declared buffer, stride, offset and type."""
 import io
+import tempfile
 
 import numpy as np
 from hypothesis import strategies as st
@@ -18,7 +19,7 @@ RULE = ("Hypothesis draws DAQmx files: 1-3 segments, 1-3 acquisition buffers of 
         "overlaps and padding allowed) or digital-line scalers (u8, any bit of the row), raw (DaqMxRawData) or typed "
         "single-scaler channels, 1-3 chunks, both byte orders, random buffer bytes. Oracle: the byte-addressing model "
         "(buffer, row*width+offset, size, byte order; bit for digital lines) against eager raw_scaler_data / raw_data / "
-        "read_data(scaled=False) / [:], ALL lazy windows of channels with len <= 8, channel and file chunk streams; and, for "
+        "read_data(scaled=False) / [:] (also with memmap_dir set), ALL lazy windows of channels with len <= 8, channel and file chunk streams; and, for "
         "EVERY cut inside the last chunk, the truncated file must yield only complete rows of the cut buffer, nothing from "
         "later buffers, identically in lazy and eager mode. Non-trivial: (>=2 channels or >=2 buffers or >=2 chunks) and a "
         "scaler with non-zero offset."
@@ -70,7 +71,7 @@ def check_reads(rec, tf, exd, mode, lens=None, vals=None):
         ids = sorted(sc)
         last = ids[-1]
         if eo['chan_type'] == 'raw':
-            if mode == 'eager':
+            if mode.startswith('eager'):
                 ok, rsd = rec.guard('eager:raw_scaler_data', lambda: ch.raw_scaler_data)
                 if ok:
                     if sorted(rsd.keys()) != ids:
@@ -91,7 +92,7 @@ def check_reads(rec, tf, exd, mode, lens=None, vals=None):
                     for i in ids:
                         _cmp(rec, 'values:%s:read_data' % mode, sc[i][0], sc[i][1], d[i], '%s scaler %d' % (p, i))
         else:
-            if mode == 'eager':
+            if mode.startswith('eager'):
                 ok, d = rec.guard('eager:raw_data', lambda: ch.raw_data)
                 if ok:
                     _cmp(rec, 'values:eager:raw_data', sc[last][0], sc[last][1], d, '%s raw_data' % p)
@@ -101,7 +102,7 @@ def check_reads(rec, tf, exd, mode, lens=None, vals=None):
         ok, d = rec.guard(mode + ':[:]', lambda: ch[:])
         if ok:
             _cmp(rec, 'values:%s:[:]' % mode, sc[last][0], sc[last][1], d, '%s[:]' % p)
-        if mode == 'lazy':
+        if mode.startswith('lazy'):
             # all windows for small channels
             if n <= 8:
                 for o in range(0, n + 2):
@@ -128,7 +129,7 @@ def check_reads(rec, tf, exd, mode, lens=None, vals=None):
                 cat = b''.join(le_bytes(x) for x in parts if len(x))
                 if cat != sc[last][1]:
                     rec.violation('values:lazy:channel_chunks', '%s chunk stream differs from expected data' % p)
-    if mode == 'lazy' and len(exd) >= 1:
+    if mode.startswith('lazy') and len(exd) >= 1:
         # chunk streams of all channels advanced in lock step, with a window read of another channel between two chunks
         def lockstep():
             paths = list(exd)
@@ -161,7 +162,7 @@ def check_reads(rec, tf, exd, mode, lens=None, vals=None):
                     rec.violation('values:lazy:lockstep_chunks', '%s: chunk stream advanced in turn with the other channels\' '
                                   'streams (and window reads in between) differs from expected data' % p)
                     break
-    if mode == 'lazy':
+    if mode.startswith('lazy'):
         def file_chunks():
             acc = {p: [] for p in exd}
             for chunk in tf.data_chunks():
@@ -210,6 +211,20 @@ def check(case, rec):
             check_reads(rec, tf, exd, 'lazy')
         finally:
             tf.close()
+    # ---- the same reads with the arrays backed by memory-mapped temporary files (memmap_dir)
+    with tempfile.TemporaryDirectory(prefix='c11mm_') as mm:
+        ok, tf = rec.guard('eager_memmap:read', lambda: TdmsFile.read(io.BytesIO(data), memmap_dir=mm))
+        if ok:
+            rec.label('memmap_dir')
+            check_reads(rec, tf, exd, 'eager_memmap')
+            del tf
+        ok, tf = rec.guard('lazy_memmap:open', lambda: TdmsFile.open(io.BytesIO(data), memmap_dir=mm))
+        if ok:
+            try:
+                check_reads(rec, tf, exd, 'lazy_memmap')
+            finally:
+                tf.close()
+            del tf
     if not case.get('cuts'):
         return
     # ---- truncation of the final chunk at every byte
